@@ -68,6 +68,10 @@ def requested_writers(run, F, E):
     who_may_call(run, F, E, 'C02.b', table)
     allowed = {('R_', 'applyRequest'), ('C_', 'deepEnter'), ('C_', 'deepChangeToRequested'), ('C_', 'deepLoadRequested'),
                ('Registry', 'clear'), ('Registry', 'clearRequests'), ('R_', 'processTransitions'), ('R_', 'initialEnter')}
+    for root_name in ('processRequest', 'initialEnter'):
+        for root in F.find('R_', root_name):
+            for g, _ in anchors.substitution_loops(F, E, root):
+                allowed.add(tk_short(g))      # the function that owns the substitution loop restores `requested` on a veto
     for fn in F.fns:
         direct = set()
         for e in ir.all_exprs(fn):
@@ -77,16 +81,17 @@ def requested_writers(run, F, E):
             run.ob('C02.b', '%s is an expected writer of registry.requested' % fn.short, tk_short(fn) in allowed, where=fn.pat,
                    key='%s writes registry.requested' % fn.short)
     # in the loops the request handed to applyRequest is the outstanding one
-    for name in ('processTransitions', 'initialEnter'):
-        for fn in F.find('R_', name):
-            c = cfgmod.cfg_of(fn)
-            for n in c.events(('call',), lambda nd: nd.e.get('m') == 'applyRequest'):
-                if not c.in_loop(n):
-                    continue
-                a = n.e['args'][1]
-                ok = E.lv(a, fn) in ({('core', 'request', 'destination')}, {('core', 'request')})
-                run.ob('C02.b', 'R_::%s applies the outstanding request\'s destination' % name, ok, where=n.e.get('l'), detail=ir.pp(a),
-                       key='R_::%s applies something other than the outstanding request' % name)
+    for root_name in ('processRequest', 'initialEnter'):
+        for root in F.find('R_', root_name):
+            for fn, st in anchors.substitution_loops(F, E, root):
+                for t in ir.walk_stmts(st.get('body')):
+                    for e0 in ir.stmt_exprs(t):
+                        for x in ir.walk(e0):
+                            if x['k'] == 'call' and x.get('m') == 'applyRequest':
+                                a = x['args'][1]
+                                ok = E.lv(a, fn) in ({('core', 'request', 'destination')}, {('core', 'request')})
+                                run.ob('C02.b', 'the substitution loop of R_::%s applies the outstanding request' % root_name, ok, where=x.get('l'), detail=ir.pp(a),
+                                       key='the substitution loop reached from R_::%s applies something other than the outstanding request' % root_name)
 
 
 def immediate(run, F, E):
@@ -106,16 +111,22 @@ def drop_condition(run, F):
     """In the substitution loops a request may be dropped without being shown to any guard only if it is identical to the
     transition accepted so far (origin, destination, method, payload presence, payload bytes). Decided by evaluating the loop's
     own drop predicate -- the `if (applyRequest(...))` condition -- on the comparison domain of (accepted, outstanding)."""
-    for name in ('processTransitions', 'initialEnter'):
-        for fn in F.find('R_', name):
+    sites = []
+    for root_name in ('processRequest', 'initialEnter'):
+        for root in F.find('R_', root_name):
+            for g, st in anchors.substitution_loops(F, effects.Effects(F) if not hasattr(F, '_E') else F._E, root):
+                sites.append((root_name, g, st))
+    seen_sites = set()
+    for name, fn, loop_stmt in sites:
+            if (fn.id, id(loop_stmt)) in seen_sites:
+                continue
+            seen_sites.add((fn.id, id(loop_stmt)))
             conds = []
-            for s in ir.walk_stmts(fn.body):
-                if s.get('s') == 'for':
-                    for t in ir.walk_stmts(s.get('body')):
-                        if t.get('s') == 'if' and 'applyRequest' in ir.pp(t['c']):
-                            conds.append(t['c'])
+            for t in ir.walk_stmts(loop_stmt.get('body')):
+                if t.get('s') == 'if' and 'applyRequest' in ir.pp(t['c']):
+                    conds.append(t['c'])
             if len(conds) != 1:
-                raise AnalysisBroken('R_::%s: expected one `if (applyRequest(...))` in the loop, found %d' % (name, len(conds)))
+                raise AnalysisBroken('%s: expected one `if (applyRequest(...))` in the substitution loop, found %d' % (fn.short, len(conds)))
             cur_param = None
             cur_decl = None
             for p in fn.params:
@@ -129,7 +140,7 @@ def drop_condition(run, F):
                                 cur_decl = v
             cur_id = (cur_param or cur_decl or {}).get('id')
             if cur_id is None:
-                raise AnalysisBroken('R_::%s: currentTransition not found' % name)
+                raise AnalysisBroken('%s: currentTransition not found' % fn.short)
             ty = (cur_param or cur_decl)['ty']
             has_payload = 'TransitionT<void>' not in ty
             origins, dests, methods = [255, 3], [0, 7, 255], [0, 2]
@@ -152,16 +163,16 @@ def drop_condition(run, F):
                 try:
                     applied = ev.truth(ev.ev(conds[0], fn, this, {cur_id: cur}, 0))
                 except cmpdomain.NotPure as e:
-                    raise AnalysisBroken('R_::%s: the drop predicate is not a pure comparison: %s' % (name, e))
+                    raise AnalysisBroken('%s: the drop predicate is not a pure comparison: %s' % (fn.short, e))
                 cells += 1
                 identical = co == ro and cd == rd and cm == 0 and cp == rp and (not cp or cs == rs)
                 if not applied and not identical and bad is None:
                     bad = {'accepted': dict(cur), 'outstanding request': dict(req), 'dropped unseen by guards': True}
                 if applied and this['_core']['registry']['requested'] != rd and bad is None:
                     bad = {'accepted': dict(cur), 'outstanding request': dict(req), 'registry.requested after applying': this['_core']['registry']['requested']}
-            run.ob('C02.f', 'R_::%s drops an outstanding request unseen by guards only if it is identical to the accepted transition; otherwise it becomes the '
-                   'requested destination (%d cells, %s)' % (name, cells, 'payload' if has_payload else 'void'), bad is None, where=fn.pat, detail=bad,
-                   key='R_::%s can drop a request that differs from the accepted transition' % name)
+            run.ob('C02.f', 'the substitution loop of R_::%s (in %s) drops an outstanding request unseen by guards only if it is identical to the accepted '
+                   'transition; otherwise it becomes the requested destination (%d cells, %s)' % (name, fn.short, cells, 'payload' if has_payload else 'void'),
+                   bad is None, where=fn.pat, detail=bad, key='the substitution loop reached from R_::%s can drop a request that differs from the accepted transition' % name)
 
 
 def run(run):
